@@ -339,40 +339,45 @@ func (r *sgResolver) Resolve(pt *gast.Definition, parent Obj, f *gast.Field, arg
 		if root == nil {
 			return nil, nil
 		}
-		return u.fieldValue(u.S.Type(pt.Name), root, f.Name, args, root)
+		return u.fieldValue(u.S.Type(pt.Name), root, f.Name, args, func(fn string) (any, bool) { v, ok := root[fn]; return v, ok })
 	}
 	mt := u.S.Type(pt.Name)
-	var reqFrom map[string]any
-	if mt != nil {
-		if mf := mt.Field(f.Name); mf != nil && mf.Requires != "" {
-			// inputs this subgraph owns come from its own data, external ones
-			// only from the representation it was sent
-			reqFrom = map[string]any{}
-			rep, _ := parent["__rep"].(map[string]any)
-			for _, fn := range selectionFieldNames(mf.Requires) {
-				fd := pt.Fields.ForName(fn)
-				if fd != nil && fd.Directives.ForName("external") == nil {
-					reqFrom[fn] = parent[fn]
-					continue
+	return u.fieldValue(mt, parent, f.Name, args, r.input(pt, mt, parent, f.Name))
+}
+
+// input supplies @requires inputs inside a subgraph: inputs this subgraph owns
+// come from its own data (recursively, when they are computed fields
+// themselves), external ones only from the representation it was sent.
+func (r *sgResolver) input(pt *gast.Definition, mt *Type, parent Obj, forField string) func(fn string) (any, bool) {
+	var in func(fn string) (any, bool)
+	in = func(fn string) (any, bool) {
+		fd := pt.Fields.ForName(fn)
+		if fd != nil && fd.Directives.ForName("external") == nil {
+			if mt != nil {
+				if mf := mt.Field(fn); mf != nil && mf.Requires != "" {
+					v, err := r.s.U.fieldValue(mt, parent, fn, nil, in)
+					if err != nil {
+						return nil, true
+					}
+					return v, true
 				}
-				if rep == nil {
-					r.req.Problems = append(r.req.Problems, fmt.Sprintf("%s.%s (@requires %q) was requested outside an _entities lookup, the subgraph cannot know its inputs", pt.Name, f.Name, mf.Requires))
-					return nil, fmt.Errorf("requires inputs unavailable")
-				}
-				v, ok := rep[fn]
-				if !ok {
-					r.req.Problems = append(r.req.Problems, fmt.Sprintf("representation for %s.%s misses @requires inputs %q: %s", pt.Name, f.Name, mf.Requires, refexec.Canon(rep)))
-					return nil, fmt.Errorf("requires inputs missing")
-				}
-				reqFrom[fn] = v
 			}
-			if _, ok := projectSel(reqFrom, mf.Requires); !ok {
-				r.req.Problems = append(r.req.Problems, fmt.Sprintf("representation for %s.%s misses @requires inputs %q: %s", pt.Name, f.Name, mf.Requires, refexec.Canon(rep)))
-				return nil, fmt.Errorf("requires inputs missing")
-			}
+			v, ok := parent[fn]
+			return v, ok
 		}
+		rep, _ := parent["__rep"].(map[string]any)
+		if rep == nil {
+			r.req.Problems = append(r.req.Problems, fmt.Sprintf("%s.%s (@requires) was requested outside an _entities lookup, the subgraph cannot know its input %s", pt.Name, forField, fn))
+			return nil, false
+		}
+		v, ok := rep[fn]
+		if !ok {
+			r.req.Problems = append(r.req.Problems, fmt.Sprintf("representation for %s.%s misses @requires inputs %q: %s", pt.Name, forField, fn, refexec.Canon(rep)))
+			return nil, false
+		}
+		return v, true
 	}
-	return u.fieldValue(mt, parent, f.Name, args, reqFrom)
+	return in
 }
 
 func (r *sgResolver) entities(args map[string]any) any {
